@@ -143,7 +143,7 @@ func TestDriveC09(t *testing.T) {
 				if fi, e := os.Stat(out); e == nil && fi.Size() != lastSize {
 					lastSize, lastChange = fi.Size(), time.Now()
 				}
-				if time.Since(lastChange) > 150*time.Second {
+				if time.Since(lastChange) > 90*time.Second {
 					hung = true
 					_ = cmd.Process.Kill()
 					err = <-exited
